@@ -5,6 +5,8 @@
 //! Pause points used (single guarded statements in `store.rs`):
 //! `zonestore.resolve.after_check`, `zonestore.resolve.after_get`,
 //! `zonestore.insert.after_upsert`.
+//! Inside the two cache lock scopes of `resolve` (parked there, a task holds the cache mutex):
+//! `zonestore.resolve.in_cache_check`, `zonestore.resolve.in_cache_fill`.
 
 use std::sync::Arc;
 
